@@ -525,32 +525,53 @@ def wellformed(img):
     return True
 
 
-def linked_model(rng, cls, enc, nload=None):
+def linked_model(rng, cls, enc, nload=None, tls=None):
     """A linker-like well-formed image whose segment contents are covered by sections: sections laid
     out consecutively (aligned), allocated ones at address = segment vaddr + distance from the segment's
     file start, PT_LOAD segments covering runs of them (offset ≡ vaddr mod align), optional nested
-    PT_NOTE, NOBITS last in its segment, non-allocated sections and the tables after them."""
+    PT_NOTE, NOBITS last in its segment, non-allocated sections and the tables after them.
+    `tls` (None | "seg" | "noseg"): one PT_LOAD additionally holds a thread-local data section (`.tdata`,
+    SHT_PROGBITS, SHF_WRITE|SHF_ALLOC|SHF_TLS) among its file-backed sections - the usual place of the TLS
+    initialisation image - with ("seg") or without ("noseg") a PT_TLS segment over it.  With `tls=None` the
+    function draws exactly the random numbers it always drew."""
     m = Model(cls, enc)
     aw = 4 if cls == 32 else 8
     m.ident[0:4] = b"\x7fELF"; m.ident[4] = 1 if cls == 32 else 2; m.ident[5] = 1 if enc == "lsb" else 2
     m.ident[6] = 1; m.ident[7] = rng.choice([0, 3, 9]); m.ident[8] = 0
     nload = rng.choice([0, 1, 2, 2, 3]) if nload is None else nload
+    if tls:
+        nload = max(nload, 1)
     names = [b""]; secs = [dict(sh_name=0, sh_type=0, sh_flags=0, sh_addr=0, sh_offset=0, sh_size=0, sh_link=0,
                                 sh_info=0, sh_addralign=0, sh_entsize=0, name=b"", data=None)]
     segs = []
     page = rng.choice([0x1000, 0x1000, 0x10000, 0x100])
     nseg_total = nload + (1 if nload and rng.random() < 0.5 else 0)
-    pos = EHSIZE[cls] + PHSIZE[cls] * nseg_total
-    note_seg = None
+    pos = EHSIZE[cls] + PHSIZE[cls] * (nseg_total + (1 if tls == "seg" else 0))
+    note_seg = None; tls_seg = None
+    tls_load = rng.randrange(nload) if tls else None
     for j in range(nload):
         base = 0x400000 + j * 0x1000000
         k = rng.randint(1, 4)
+        tls_at = rng.randrange(k + 1) if j == tls_load else None     # .tdata goes before the t-th section (k: behind all)
         # segment start: offset ≡ vaddr (mod page)
         pos += (-pos) % rng.choice([1, 4, 16])
         seg_off = pos; vaddr = base + (seg_off % page)
         flags = rng.choice([5, 6, 4, 7])
         first = len(secs); mem_end = vaddr
+        def tdata():
+            nonlocal pos, mem_end, tls_seg
+            al = rng.choice([1, 4, 8, 16]); pos += (-pos) % al
+            n = rng.choice([1, 8, 12, 32, rng.randint(1, 64)])
+            a = vaddr + (pos - seg_off)
+            secs.append(dict(sh_name=0, sh_type=1, sh_flags=SHF_WRITE | SHF_ALLOC | SHF_TLS, sh_addr=a, sh_offset=pos, sh_size=n,
+                             sh_link=0, sh_info=0, sh_addralign=al, sh_entsize=0, name=b".tdata",
+                             data=bytes(rng.randrange(1, 256) for _ in range(n))))
+            if tls == "seg":
+                tls_seg = dict(p_type=PT_TLS, p_flags=4, p_offset=pos, p_vaddr=a, p_paddr=a, p_filesz=n, p_memsz=n, p_align=al)
+            pos += n; mem_end = max(mem_end, vaddr + (pos - seg_off))
         for t in range(k):
+            if tls_at == t and not (secs[-1]["sh_type"] == 8 and len(secs) > first):
+                tdata(); tls_at = None
             nob = (t == k - 1) and rng.random() < 0.3 or (t == k - 2 and k >= 3 and rng.random() < 0.25) \
                 or (t == k - 1 and secs[-1]["sh_type"] == 8 and len(secs) > first)
             al = rng.choice([1, 4, 8, 16])
@@ -569,6 +590,8 @@ def linked_model(rng, cls, enc, nload=None):
                                  sh_offset=pos, sh_size=n, sh_link=0, sh_info=0, sh_addralign=al, sh_entsize=rng.choice([0, 0, 8]),
                                  name=rng.choice([b".text", b".rodata", b".data", b".note.x", b".init_array", b".dyn"]) + b"%d" % len(secs), data=data))
                 pos += n; mem_end = max(mem_end, vaddr + (pos - seg_off))
+        if tls_at is not None and not (secs[-1]["sh_type"] == 8 and len(secs) > first):
+            tdata(); tls_at = None
         file_end = max([s["sh_offset"] + s["sh_size"] for s in secs[first:] if s["data"] is not None] + [seg_off])
         segs.append(dict(p_type=1, p_flags=flags, p_offset=seg_off, p_vaddr=vaddr, p_paddr=vaddr,
                          p_filesz=file_end - seg_off, p_memsz=mem_end - vaddr, p_align=page))
@@ -582,6 +605,8 @@ def linked_model(rng, cls, enc, nload=None):
             nseg_total = nload
         else:
             segs.append(note_seg)
+    if tls_seg is not None:
+        segs.insert(rng.randrange(len(segs) + 1), tls_seg)
     # non-allocated sections
     for t in range(rng.randint(0, 3)):
         al = rng.choice([1, 1, 4, 8]); pos += (-pos) % al
